@@ -6,6 +6,8 @@ CONSTANTS
   Window = 0
   ActiveTxs = {"t1", "t2", "t4", "t6"}
   KF_FrozenLedgerHeight = FALSE
+  KF_PlayKeepsStaleReader = FALSE
+  KF_PoolOrderAntiDep = FALSE
   KF_PoolMasksBlockOrder = FALSE
 INVARIANTS TypeOK PureFn Conservation NoDoubleSpend PoolValid
 VIEW View
